@@ -1,5 +1,6 @@
 mod common;
 mod driver;
+mod model;
 mod proj;
 mod props;
 
